@@ -94,7 +94,18 @@ def run_c20(tape, r, tier, sandbox):
     if concurrency > 1:
         r.probes['concurrency>1'] += 1
     dbpath = os.path.join(sandbox, 'db.sqlite')
-    argv = crawl.argv_for(opts, [s.url for s in starts], dbpath)
+    # tag options that leave every link-bearing tag of the generated pages in place: the robots meta tag is not a link
+    tag_extra = []
+    k = tape.draw(6, 'opt.tags')
+    if k == 1:
+        tag_extra = ['--follow-tags', 'a,img,link,script']
+    elif k == 2:
+        tag_extra = ['--ignore-tags', 'meta']
+    elif k == 3:
+        tag_extra = ['--ignore-tags', 'meta,object,applet']
+    if tag_extra:
+        r.probes['tag_options'] += 1
+    argv = crawl.argv_for(opts, [s.url for s in starts], dbpath, extra=tag_extra)
 
     def setup(h, server, net):
         def robots_beh(conn, entry, res):
